@@ -559,6 +559,32 @@ func (cl *w1SimClient) runOp(op w1Op) bool {
 				}
 			}
 		}
+		if len(cl.spec.ConnSubs) > 0 && op.Ep != "" {
+			// recovery of connect-time server-side subscriptions from explicit positions
+			// (C02/C03, evaluated at quiescence like "subrec")
+			req.Subs = map[string]*protocol.SubscribeRequest{}
+			for _, ch := range cl.spec.ConnSubs {
+				top, _ := cl.w.node.History(ch)
+				off := int64(top.Offset) - int64(op.Back)
+				if off < 0 {
+					off = 0
+				}
+				epoch := top.Epoch
+				switch op.Ep {
+				case "foreign":
+					epoch = "zzzz"
+				case "empty":
+					epoch = ""
+				}
+				req.Subs[ch] = &protocol.SubscribeRequest{Recover: true, Offset: uint64(off), Epoch: epoch}
+			}
+			id := cl.id()
+			ok := cl.send(&protocol.Command{Id: id, Connect: req}, "connect", "")
+			if ok && (cl.w.prop == "C02" || cl.w.prop == "C03") && !cl.w.sc.Cfg.ConcurrentRecovery {
+				cl.w.checkConnectRecover(cl, id, req.Subs)
+			}
+			return ok
+		}
 		return cl.send(&protocol.Command{Id: cl.id(), Connect: req}, "connect", "")
 	case "sub":
 		req := &protocol.SubscribeRequest{Channel: op.Ch, Token: fmt.Sprintf("%d:%v", op.DelayUs, op.Err)}
@@ -1120,7 +1146,12 @@ func (w *w1World) publish(ch string) {
 	}
 	opts := w.publishOpts(ch)
 	rec := &w1PubRec{Seq: w.next(), Ch: ch, Data: data}
-	if chHas(ch, 'f') && !w.markerPhase {
+	if chHas(ch, 'f') && !w.markerPhase && w.s.Intn(5) == 4 {
+		// a publication without any tags on a filtered channel: an eq filter does not
+		// match it, so neither filter lets it through
+		rec.Tags = map[string]string{}
+		w.s.Probe("untagged_publication_on_filtered_channel")
+	} else if chHas(ch, 'f') && !w.markerPhase {
 		rec.Tags = map[string]string{"s": []string{"1", "1", "0"}[w.s.Intn(3)], "c": []string{"1", "0"}[w.s.Intn(2)]}
 		opts = append(opts, WithTags(rec.Tags))
 	} else if chHas(ch, 'f') {
@@ -1373,11 +1404,11 @@ var w1Flavours = map[string][]string{
 	"C36": {"_", "e_"},
 	"C26": {"_", "p_", "_", "e_"},
 	"C43": {"h_", "ph_", "eh_", "rh_"},
-	"C02": {"r_", "r_"},
+	"C02": {"r_", "r_", "rf_"},
 	"C38": {"pm_", "rm_", "m_", "pm_"},
 	"C16": {"f_", "pf_", "rf_", "cf_"},
 	"C14": {"pd_", "rd_", "pfd_", "rd_", "d_"},
-	"C03": {"c_", "c_"},
+	"C03": {"c_", "c_", "cf_"},
 	"C37": {"_", "p_"},
 }
 
@@ -1494,10 +1525,18 @@ func w1Gen(c *simrt.Choice, prop, tier string) any {
 		}
 		if prop == "C02" || prop == "C03" {
 			cl.Ops = []w1Op{{K: "connect"}}
+			if c.Intn(4) == 0 {
+				// connect-time server-side subscription recovering from a position the
+				// client sends in the connect request
+				cl.ConnSubs = []string{pickCh()}
+				cl.Ops = []w1Op{{K: "connect", Back: c.Intn(7) - 1, Ep: []string{"cur", "cur", "foreign", "empty"}[c.Intn(4)]}}
+				sc.Clients = append(sc.Clients, cl)
+				continue
+			}
 			n := 1 + c.Intn(5)
 			for j := 0; j < n; j++ {
 				ch := pickCh()
-				op := w1Op{K: "subrec", Ch: ch, Back: c.Intn(7) - 1, Ep: []string{"cur", "cur", "cur", "foreign", "empty"}[c.Intn(5)], Reject: c.Intn(5) == 0}
+				op := w1Op{K: "subrec", Ch: ch, Back: c.Intn(7) - 1, Ep: []string{"cur", "cur", "cur", "foreign", "empty"}[c.Intn(5)], Reject: c.Intn(5) == 0, Tf: chHas(ch, 'f') && c.Intn(2) == 0}
 				cl.Ops = append(cl.Ops, op, w1Op{K: "unsub", Ch: ch})
 				if c.Intn(3) == 0 {
 					cl.Ops = append(cl.Ops, w1Op{K: "sleep", DelayUs: []int{1000000, 3000000, 7000000}[c.Intn(3)]})
